@@ -426,7 +426,7 @@ func propC18(c *ctx) error {
 		bReturned := true
 		select {
 		case berr = <-bDone:
-		case <-time.After(2 * time.Second):
+		case <-time.After(10 * time.Second):
 			bReturned = false // B waits for A (a serialising implementation): release A and then judge B's own result
 		}
 		w := httptest.NewRecorder()
@@ -459,6 +459,9 @@ func propC18(c *ctx) error {
 			res.violate(cs, J{"reload_b_error": !bOK}, J{"reload_b_error": fmt.Sprint(berr), "factory_calls": nCalls}, "a Reload overlapping another one does not return its own factory's result")
 		case nCalls != 3:
 			res.violate(cs, "3 factory calls (initial, A, B)", nCalls, "a Reload overlapping another one did not build")
+		case !bReturned && bOK && w.Body.String() == "m2:a":
+			// B had not returned while A was held (serialised behind A, or merely slow on a loaded machine): after both have
+			// finished either build may be the one in service
 		case w.Body.String() != wantServed:
 			res.violate(cs, wantServed, w.Body.String(), "a request started after a successful Reload returned is not served from that Reload's template set")
 		}
